@@ -326,7 +326,12 @@ class C12(Check):
                         if qs:
                             do(rng.choice([q for q in qs if not q.startswith(("plain", "puml", "pyvis"))]))
                     else:
-                        do("mut %d %d" % (rng.randrange(10 ** 6), rng.randrange(10 ** 6)))
+                        if rng.random() < 0.4 and p.verts():
+                            # the caller edits the answer it has JUST been given
+                            do("nbrs %s %s -" % (rng.choice(p.verts()), rng.choice(["1 1", "0 2"])))
+                            do("mut -1 %d" % rng.randrange(10 ** 6))
+                        else:
+                            do("mut %d %d" % (rng.randrange(10 ** 6), rng.randrange(10 ** 6)))
                         # every later observation must be what the alias-free model says
                         do("obs")
                         for v in p.verts()[:3]:
